@@ -182,17 +182,19 @@ Variable claim_ok : claim -> bool.
 (* a guess of the context a `with` header evaluates to (checked as a claim) *)
 Variable guess_ctx : facts -> expr -> option ctx.
 
+Definition guess_checked (E : facts) (e' : expr) : option ctx :=
+  match guess_ctx (lit_facts E) e' with
+  | Some c =>
+      if pure_na e' && forallb (has_lit E) (efv [] e') &&
+         claim_ok (Claim (lit_facts E) (Some CReal) e' (ECtxVal c))
+      then Some c else None
+  | None => None
+  end.
+
 Definition known_ctx (E : facts) (e' : expr) : option ctx :=
   match e' with
   | ECtxVal c => Some c
-  | _ =>
-      match guess_ctx (lit_facts E) e' with
-      | Some c =>
-          if pure_na e' && forallb (has_lit E) (efv [] e') &&
-             claim_ok (Claim (lit_facts E) (Some CReal) e' (ECtxVal c))
-          then Some c else None
-      | None => None
-      end
+  | _ => guess_checked E e'
   end.
 
 Definition leaf_rw (E : facts) (oc : option ctx) (bvs : vars) (e e' : expr) : bool :=
